@@ -335,7 +335,7 @@ Print Assumptions C02_rk_int_float_x100_agree.
    the model of Xls::new + worksheet_range on the FILE BYTES returns the sheets in order, each with
    exactly the bounding rectangle of its cells and every value at its position. ---- *)
 From Calamine Require Cfb XlsFile XlsFile_proofs.
-Theorem C02_xls_whole_file_main : forall (fdiv100 : N -> N) (decode16 : list N -> list N) (show_f64 : N -> list N) (wb : XlsFile.lwb) (ch : XlsFile.xchoice) (fuel : nat), XlsFile.xfile_legal fdiv100 decode16 wb ch -> (Cfb.fuel_for (XlsFile.xc_layout ch) <= fuel)%nat -> XlsFile.xls_open_model fdiv100 decode16 show_f64 fuel (XlsFile.xls_file_write wb ch) = Ok (XlsFile.spec_result wb ch).
+Theorem C02_xls_whole_file_main : forall (fdiv100 : N -> N) (decode16 : list N -> list N) (show_f64 : N -> list N) (wb : XlsFile.lwb) (ch : XlsFile.xchoice) (fuel : nat), XlsFile.xfile_legal fdiv100 decode16 wb ch -> (Cfb.fuel_for (XlsFile.xc_layout ch) <= fuel)%nat -> XlsFile.xls_open_model fdiv100 decode16 show_f64 fuel (XlsFile.xls_file_write wb ch) = Ok (XlsFile.spec_result show_f64 wb ch).
 Proof. exact XlsFile_proofs.xls_file_main. Qed.
 Print Assumptions C02_xls_whole_file_main.
 
@@ -350,16 +350,16 @@ Example C02_xls_whole_file_codepage_nonvacuous : forall fdiv100 : N -> N,
             XlsFile.xfile_legal fdiv100 BiffRec_proofs.id_decode XlsFile_proofs.ex_wb (XlsFileCodePage_proofs.cp_choice cp) /\
             XlsFile.xls_open_model fdiv100 BiffRec_proofs.id_decode (fun _ => []) 1
               (XlsFile.xls_file_write XlsFile_proofs.ex_wb (XlsFileCodePage_proofs.cp_choice cp)) =
-            Ok (XlsFile.spec_result XlsFile_proofs.ex_wb (XlsFileCodePage_proofs.cp_choice cp)) /\
-            XlsFile.spec_result XlsFile_proofs.ex_wb (XlsFileCodePage_proofs.cp_choice cp) =
-            XlsFile.spec_result XlsFile_proofs.ex_wb XlsFile_proofs.ex_ch)
+            Ok (XlsFile.spec_result (fun _ => []) XlsFile_proofs.ex_wb (XlsFileCodePage_proofs.cp_choice cp)) /\
+            XlsFile.spec_result (fun _ => []) XlsFile_proofs.ex_wb (XlsFileCodePage_proofs.cp_choice cp) =
+            XlsFile.spec_result (fun _ => []) XlsFile_proofs.ex_wb XlsFile_proofs.ex_ch)
          [1252; 932; 1200; 65001; 54321] /\
   XlsFile.xfile_legal fdiv100 BiffRec_proofs.id_decode XlsFile_proofs.ex_wb XlsFileCodePage_proofs.cp_choice_two /\
   XlsFile.xls_open_model fdiv100 BiffRec_proofs.id_decode (fun _ => []) 1
     (XlsFile.xls_file_write XlsFile_proofs.ex_wb XlsFileCodePage_proofs.cp_choice_two) =
-  Ok (XlsFile.spec_result XlsFile_proofs.ex_wb XlsFileCodePage_proofs.cp_choice_two) /\
-  XlsFile.spec_result XlsFile_proofs.ex_wb XlsFileCodePage_proofs.cp_choice_two =
-  XlsFile.spec_result XlsFile_proofs.ex_wb XlsFile_proofs.ex_ch /\
+  Ok (XlsFile.spec_result (fun _ => []) XlsFile_proofs.ex_wb XlsFileCodePage_proofs.cp_choice_two) /\
+  XlsFile.spec_result (fun _ => []) XlsFile_proofs.ex_wb XlsFileCodePage_proofs.cp_choice_two =
+  XlsFile.spec_result (fun _ => []) XlsFile_proofs.ex_wb XlsFile_proofs.ex_ch /\
   firstn 12 (skipn 20 (XlsFile.xls_stream_write XlsFile_proofs.ex_wb (XlsFileCodePage_proofs.cp_choice 1252))) =
     [225; 0; 2; 0; 176; 4; 66; 0; 2; 0; 228; 4].
 Proof. exact XlsFileCodePage_proofs.example_whole_codepage. Qed.
